@@ -2,9 +2,16 @@ import Martian.Model.Shape
 namespace Martian.Drv.C18
 open Martian Martian.Go Martian.Shape
 
+/-- A `Write` parked inside the inner connection: before its first inner write, or between rounds. -/
+inductive DPend
+  | notBegun (b : Bytes)
+  | running (pd : Pending)
+
 structure St where
   l : Listener := {}
   conns : List (String × Conn) := []
+  pend : List (String × DPend) := []
+  cfgPending : Bool := false
 
 def init : St := {}
 
@@ -113,9 +120,50 @@ def allAscii (c : RawConfig) : Bool :=
       | none => true
       | some t => isAscii t.bytes
 
-def step (s : St) (toks : List String) : St × String :=
-  match toks with
-  | "config" :: d :: shapes =>
+def showStatus : Status → String
+  | .ok => "ok" | .closed => "close" | .panic => "panic" | .fuel => "fuel"
+
+/-- The line of a finished `Write` (`w`, with the delivered bytes) or of a whole response of the
+end-to-end tier (`r`, lengths only). -/
+def showW (tag : String) (withBytes : Bool) (l : Listener) (c : Conn) (delivered : Bytes) (evs : List Ev)
+    (st : Status) : String :=
+  let ev := if evs.isEmpty then "-" else ",".intercalate (evs.map showEv)
+  let cap := if c.ctx.shaping then capOf c else "-"
+  let d := if withBytes then s!" d={hex delivered}" else ""
+  s!"{tag} n={delivered.length} st={showStatus st}{d} off={c.ctx.off} hw={c.ctx.headerWritten} next={showNext c.ctx.next} shaping={if c.ctx.shaping then 1 else 0} cap={cap} ev={ev} counts={showCounts l c.ctx.regex}"
+
+def roundsFuel (b : Bytes) : Nat := b.length + 4096
+
+/-- The rounds up to the park point of `wstart <id> <hex> <p> <d>`: the inner connection parks the
+first inner write that begins once `p` bytes of the call are out.  A round whose amount is 0 performs
+the pending action without an inner write.  The adversary is chosen so that a round boundary falls
+on the observed park position `d` and none in `[p, d)`; a boundary forced by the head end or by an
+action offset inside `[p, d)` parks there (and the lines differ). -/
+def parkLoop (p : Nat) (d : Option Nat) : Nat → Listener → Conn → Pending → Listener × Conn × Pending × Option Status
+  | 0, l, c, pd => (l, c, pd, some .fuel)
+  | fuel + 1, l, c, pd =>
+    if pd.rest.isEmpty then roundStep 0 l c pd
+    else
+      let pos := pd.delivered.length
+      let writes := !c.ctx.shaping || decide (amount pd.rest.length c.ctx.off c.ctx.next ≠ 0)
+      if writes && decide (pos ≥ p) then (l, c, pd, none)
+      else
+        let k := drvCaps pd.round + 1
+        let stepLen := match d with
+          | some d => if pos < d then (if pos + k < p then k else d - pos) else 1000000
+          | none => 1000000
+        match roundStep (stepLen - 1) l c pd with
+        | (l', c', pd', some st) => (l', c', pd', some st)
+        | (l', c', pd', none) => parkLoop p d fuel l' c' pd'
+
+def getPend (s : St) (id : String) : Option DPend := (s.pend.find? (·.1 = id)).map (·.2)
+
+/-- A call that returned: the proxy closes a connection whose write was cut. -/
+def finished (s : St) (id : String) (l : Listener) (c : Conn) (pd : Pending) (st : Status) : St × String :=
+  let c' := if st = .closed then { c with closed := true } else c
+  (putConn { s with l := l, pend := s.pend.filter (·.1 ≠ id) } id c', showW "w" true l c' pd.delivered pd.evs st)
+
+def configOp (s : St) (d : String) (shapes : List String) : St × String :=
     match parseDefaults d, shapes.mapM parseShapeTok with
     | some d, some shs =>
       let cfg : RawConfig := ⟨d, shs⟩
@@ -124,6 +172,46 @@ def step (s : St) (toks : List String) : St × String :=
       | (l', none) => ({ s with l := l' }, "accepted")
       | (_, some e) => (s, showReject e)
     | _, _ => (s, "bad-op")
+
+def step (s : St) (toks : List String) : St × String :=
+  match toks with
+  | "config" :: d :: shapes => if s.cfgPending then (s, "bad-op") else configOp s d shapes
+  | ["cfgstart"] => if s.cfgPending then (s, "bad-op") else ({ s with cfgPending := true }, "cfg-pending")
+  | "cfgend" :: d :: shapes =>
+    -- the request whose upload was stalled completes: parse, validate, swap, time stamp happen now
+    if !s.cfgPending then (s, "bad-op") else configOp { s with cfgPending := false } d shapes
+  | ["wstart", id, hx, p, d] =>
+    match getConn s id, unhex hx, p.toNat?, (if d = "-" then some none else d.toNat?.map some) with
+    | some c, some b, some p, some d =>
+      if c.closed || !s.pend.isEmpty || b.isEmpty then (s, "bad-op") else
+      let headFirst := !c.ctx.shaping || decide (c.ctx.headerLen - c.ctx.headerWritten > 0)
+      if headFirst && p = 0 then ({ s with pend := [(id, .notBegun b)] }, "parked d=0")
+      else
+        let (c1, pd) := beginWrite c b
+        match parkLoop p d (roundsFuel b) s.l c1 pd with
+        | (l', c', pd', none) =>
+          (putConn { s with l := l', pend := [(id, .running pd')] } id c', s!"parked d={pd'.delivered.length}")
+        | (l', c', pd', some st) => finished s id l' c' pd' st
+    | _, _, _, _ => (s, "bad-op")
+  | ["wend", id] =>
+    match getConn s id, getPend s id with
+    | some c, some (.notBegun b) =>
+      let (c1, pd) := beginWrite c b
+      let (l', c', pd', st) := runRounds drvCaps (roundsFuel b) s.l c1 pd
+      finished s id l' c' pd' st
+    | some c, some (.running pd) =>
+      let (l', c', pd', st) := runRounds drvCaps (roundsFuel pd.rest) s.l c pd
+      finished s id l' c' pd' st
+    | _, _ => (s, "bad-op")
+  | ["resp", id, u, rs, hl, blen] =>
+    match getConn s id, parseUrl u, rs.toInt?, hl.toNat?, blen.toNat? with
+    | some c, some u, some rs, some hl, some blen =>
+      if c.closed || (getPend s id).isSome || rs < -1 then (s, "bad-op") else
+      let c0 := setContext s.l c u rs hl none
+      let (l', c', res) := connWrite drvCaps s.l c0 (List.replicate (hl + blen) 0)
+      let c' := if res.status = .closed then { c' with closed := true } else c'
+      (putConn { s with l := l' } id c', showW "r" false l' c' res.delivered res.evs res.status)
+    | _, _, _, _, _ => (s, "bad-op")
   | ["conn", id] =>
     if (getConn s id).isSome then (s, "bad-op") else
     let (l', c) := accept s.l
@@ -132,7 +220,7 @@ def step (s : St) (toks : List String) : St × String :=
   | ["ctx", id, u, rs, hl, f] =>
     match getConn s id, parseUrl u, rs.toInt?, hl.toInt?, (if f = "-" then some none else f.toInt?.map some) with
     | some c, some u, some rs, some hl, some f =>
-      if c.closed ∨ hl < 0 ∨ rs < -1 then (s, "bad-op") else
+      if c.closed ∨ hl < 0 ∨ rs < -1 ∨ (getPend s id).isSome then (s, "bad-op") else
       let c' := setContext s.l c u rs hl f
       let out := if c'.ctx.shaping then
           let thr := match c'.ctx.regex.bind (fun r => validShape s.l c r) with
@@ -147,20 +235,20 @@ def step (s : St) (toks : List String) : St × String :=
   | ["write", id, hx] =>
     match getConn s id, unhex hx with
     | some c, some b =>
-      if c.closed then (s, "bad-op") else
+      if c.closed || !s.pend.isEmpty then (s, "bad-op") else
       let (l', c', res) := connWrite drvCaps s.l c b
-      let st := match res.status with
-        | .ok => "ok" | .closed => "close" | .panic => "panic" | .fuel => "fuel"
+      -- cross-check on every write: the same call as entry + rounds of the interleaving machine
+      let (c1, pd) := beginWrite c b
+      let (l2, c2, pd2, st2) := runRounds drvCaps (roundsFuel b) s.l c1 pd
+      if !(decide (l2 = l') && decide (c2 = c') && decide (pd2.delivered = res.delivered) && decide (pd2.evs = res.evs)
+           && decide (st2 = res.status)) then (s, "model-mismatch: connWrite vs rounds") else
       -- the proxy closes a connection whose write was cut (`handle` returns `errClose`)
       let c' := if res.status = .closed then { c' with closed := true } else c'
-      let s' := putConn { s with l := l' } id c'
-      let ev := if res.evs.isEmpty then "-" else ",".intercalate (res.evs.map showEv)
-      let cap := if c'.ctx.shaping then capOf c' else "-"
-      (s', s!"w n={res.delivered.length} st={st} d={hex res.delivered} off={c'.ctx.off} hw={c'.ctx.headerWritten} next={showNext c'.ctx.next} shaping={if c'.ctx.shaping then 1 else 0} cap={cap} ev={ev} counts={showCounts l' c'.ctx.regex}")
+      (putConn { s with l := l' } id c', showW "w" true l' c' res.delivered res.evs res.status)
     | _, _ => (s, "bad-op")
   | ["close", id] =>
     match getConn s id with
-    | some c => if c.closed then (s, "bad-op") else (putConn s id { c with closed := true }, "closed")
+    | some c => if c.closed || (getPend s id).isSome then (s, "bad-op") else (putConn s id { c with closed := true }, "closed")
     | none => (s, "bad-op")
   | _ => (s, "bad-op")
 
